@@ -30,11 +30,21 @@ pub struct CaseCfg {
     pub small: u64,
     pub dir: Option<PathBuf>,
     pub policy_always: bool,
+    pub policy_window: Option<(u32, u32)>,
     pub interval_ms: u64,
     pub jitter: f64,
     pub trig_frag: f64,
     pub trig_dead: u64,
     pub sync_ms: u64,
+}
+
+fn local_hour() -> u32 {
+    unsafe {
+        let t = libc::time(std::ptr::null_mut());
+        let mut tm: libc::tm = std::mem::zeroed();
+        libc::localtime_r(&t, &mut tm);
+        tm.tm_hour as u32
+    }
 }
 
 pub fn parse_case(line: &str) -> CaseCfg {
@@ -49,6 +59,7 @@ pub fn parse_case(line: &str) -> CaseCfg {
         small: 10 * 1024 * 1024,
         dir: None,
         policy_always: false,
+        policy_window: None,
         interval_ms: 3_600_000,
         jitter: 0.0,
         trig_frag: 0.6,
@@ -73,7 +84,16 @@ pub fn parse_case(line: &str) -> CaseCfg {
             "dead" => c.dead = v.parse().unwrap(),
             "small" => c.small = v.parse().unwrap(),
             "dir" => c.dir = Some(PathBuf::from(v)),
-            "policy" => c.policy_always = v == "always",
+            "policy" => {
+                c.policy_always = v == "always";
+                // window:open = the whole day; window:closed = one hour, twelve hours from now
+                if v == "window:open" {
+                    c.policy_window = Some((0, 23));
+                } else if v == "window:closed" {
+                    let h = (local_hour() + 12) % 24;
+                    c.policy_window = Some((h, h));
+                }
+            }
             "interval" => c.interval_ms = v.parse().unwrap(),
             "jitter" => c.jitter = ratio(v),
             "tfrag" => c.trig_frag = ratio(v),
@@ -98,7 +118,11 @@ pub fn make_config(c: &CaseCfg, dir: &Path) -> Config {
         } else {
             SyncStrategy::None
         })
-        .merge_policy(if c.policy_always { VerifMergePolicy::Always } else { VerifMergePolicy::Never })
+        .merge_policy(match c.policy_window {
+            Some((start, end)) => VerifMergePolicy::Window { start, end },
+            None if c.policy_always => VerifMergePolicy::Always,
+            None => VerifMergePolicy::Never,
+        })
         .merge_check_interval_ms(c.interval_ms)
         .merge_check_jitter(c.jitter)
         .merge_trigger_fragmentation(c.trig_frag)
@@ -411,19 +435,26 @@ pub fn run_case(c: &CaseCfg, ops: &[String], out: &mut dyn Write, scratch: &Path
             "oldget" | "oldset" | "olddel" | "oldmerge" | "oldsync" => match live.old.as_ref() {
                 None => "nohandle".into(),
                 Some(h) => {
+                    // on its own thread with a deadline: an operation on a closed store must fail, not hang
                     let h = h.clone();
                     let k = Bytes::from(unhex(it.next().unwrap_or("-")));
                     let v = Bytes::from(unhex(it.next().unwrap_or("-")));
-                    let r: Result<String, String> = match cmd {
-                        "oldget" => h.get(k).map(|x| format!("{:?}", x.map(|b| hex(&b)))).map_err(|e| e.to_string()),
-                        "oldset" => h.set(k, v).map(|_| "ok".to_string()).map_err(|e| e.to_string()),
-                        "olddel" => h.del(k).map(|b| b.to_string()).map_err(|e| e.to_string()),
-                        "oldmerge" => h.verif_merge().map(|_| "ok".to_string()).map_err(|e| e.to_string()),
-                        _ => h.verif_sync().map(|_| "ok".to_string()).map_err(|e| e.to_string()),
-                    };
-                    match r {
-                        Ok(x) => format!("ok:{}", x),
-                        Err(e) => format!("err:{}", e),
+                    let cmd = cmd.to_string();
+                    let (tx, rx) = std::sync::mpsc::channel();
+                    std::thread::spawn(move || {
+                        let r: Result<String, String> = match cmd.as_str() {
+                            "oldget" => h.get(k).map(|x| format!("{:?}", x.map(|b| hex(&b)))).map_err(|e| e.to_string()),
+                            "oldset" => h.set(k, v).map(|_| "ok".to_string()).map_err(|e| e.to_string()),
+                            "olddel" => h.del(k).map(|b| b.to_string()).map_err(|e| e.to_string()),
+                            "oldmerge" => h.verif_merge().map(|_| "ok".to_string()).map_err(|e| e.to_string()),
+                            _ => h.verif_sync().map(|_| "ok".to_string()).map_err(|e| e.to_string()),
+                        };
+                        let _ = tx.send(r);
+                    });
+                    match rx.recv_timeout(std::time::Duration::from_millis(3000)) {
+                        Ok(Ok(x)) => format!("ok:{}", x),
+                        Ok(Err(e)) => format!("err:{}", e),
+                        Err(_) => "hang".into(),
                     }
                 }
             },
@@ -516,6 +547,13 @@ pub fn run_case(c: &CaseCfg, ops: &[String], out: &mut dyn Write, scratch: &Path
     }
     live.h = None;
     live.kv = None;
+    live.old = None;
+    // the worker thread owns a handle: wait until it is gone, so that nothing of this case (a buffered
+    // tail flushed when the last handle drops) happens during the next case
+    let t0 = std::time::Instant::now();
+    while count_bg_threads() > 0 && t0.elapsed().as_millis() < 3000 {
+        std::thread::sleep(std::time::Duration::from_millis(2));
+    }
     mark("end");
     writeln!(out, "end").unwrap();
     out.flush().unwrap();
